@@ -24,9 +24,9 @@ def check_C18(o, tier):
     o.cov["rule"] = ("index profile: random AddDesc/RmDesc/AddChildren/JSON round trip/GetDesc/GetByAnnotation/Copy sequences over 2-4 digests, "
                      "1-3 tags, 1-2 subjects, plus the exhaustive tree of all sequences up to the stated depth over a 12- or 18-letter alphabet; "
                      "every answer of the real types.Index is compared with the Lean model's; distinct_nontrivial counts distinct (request, answer) pairs")
-    n = 4000 if tier == "quick" else 150000
+    n = 40000 if tier == "quick" else 150000
     check_profile(o, prof, "gen", {"VERIF_SEED": o.seed, "VERIF_N": n}, "index-random", C18_MONITORS)
-    depth = 4 if tier == "quick" else 6
+    depth = 6 if tier == "quick" else 7
     check_profile(o, prof, "tree", {"VERIF_DEPTH": depth}, "index-tree", C18_MONITORS)
     check_profile(o, prof, "tree", {"VERIF_DEPTH": 3 if tier == "quick" else 5, "VERIF_ALPHABET": "wide"}, "index-tree-wide", C18_MONITORS)
     o.cov["exhaustive"] = False
